@@ -35,20 +35,20 @@ import (
 // Expected: the reward transactions referenced by the returned miniblocks add up to exactly T - D.
 
 type verifC35Input struct {
-	nShards    uint32
-	cons       map[uint32]int
-	blocks     map[uint32]uint64
-	vals       map[uint32][]*state.ValidatorInfo
-	topUp      map[string]*big.Int // by public key; absent = staking data provider returns an error
-	totalTopUp *big.Int
+	nShards            uint32
+	cons               map[uint32]int
+	blocks             map[uint32]uint64
+	vals               map[uint32][]*state.ValidatorInfo
+	topUp              map[string]*big.Int // by public key; absent = staking data provider returns an error
+	totalTopUp         *big.Int
 	T, D, L, P, R, RPB *big.Int
-	n          uint64
-	epoch      uint32
-	delegEpoch uint32
-	fix1Epoch  uint32
-	factor     float64
-	gradient   *big.Int
-	round      uint64
+	n                  uint64
+	epoch              uint32
+	delegEpoch         uint32
+	fix1Epoch          uint32
+	factor             float64
+	gradient           *big.Int
+	round              uint64
 	// features
 	sharedAddr, offline, metaAddr, metaDeleg, hasTopUp bool
 }
